@@ -186,6 +186,11 @@ class Gen:
             num = self.far_size(len(outs) if outs else 0)
         return ["node", rng.choice(OPTYPES), ins, num, outs, cont, rng.choice([None, None, "n", "node_Add_0", "m"]), attr_graph]
 
+    def _node_it(self):
+        """Node(...) given one-shot iterables (a generator of inputs, an iterator of attributes)."""
+        op = self._node()
+        return ["node_it"] + op[1:]
+
     def _graph(self):
         rng = self.rng
         ins = [self.free_v() for _ in range(rng.randint(0, 2))]
@@ -516,6 +521,25 @@ class Gen:
 
     # names / payload
     def _v_name(self):
+        rng, w = self.rng, self.w
+        if rng.random() < 0.3:
+            # targeted: rename an initializer to the name of a sibling initializer (rejected), of another
+            # value of its graph, or to a fresh name - the value is backed by a tensor in most worlds
+            cands = []
+            for g in w.graphs:
+                try:
+                    items = list(g.initializers.items())
+                except Exception:  # noqa: BLE001
+                    continue
+                for k, v in items:
+                    i = _idx(w.values, v)
+                    if i is not None:
+                        cands.append((i, [n for n, _ in items if n != k]))
+            if cands:
+                i, siblings = rng.choice(cands)
+                if siblings and rng.random() < 0.7:
+                    return ["v_name", i, rng.choice(siblings)]
+                return ["v_name", i, self.name()]
         return ["v_name", self.any_v(), self.name()]
 
     def _n_name(self):
@@ -620,7 +644,7 @@ class Gen:
 
 
 DEFAULT_WEIGHTS = {
-    "val": 5, "node": 8, "graph": 2.5, "func": 0.6, "attr_graph": 1, "attr_set": 0.5, "attr_del": 0.5,
+    "val": 5, "node": 8, "node_it": 1.2, "graph": 2.5, "func": 0.6, "attr_graph": 1, "attr_set": 0.5, "attr_del": 0.5,
     "append": 4, "extend": 3, "ins_before": 3, "ins_after": 3, "remove": 4, "sort": 1.5, "n_prepend": 1, "n_append": 1,
     "rin": 5, "rsz_in": 2, "rsz_out": 3, "rauw": 3, "c_rauw": 2, "c_rnv": 1.5,
     "io_append": 3, "io_extend": 3, "io_insert": 3, "io_pop": 2.5, "io_remove": 2.5, "io_clear": 0.8, "io_set": 3,
